@@ -42,6 +42,29 @@ class FuncInfo:
             body = body[1:]
         return body
 
+    def is_generator(self):
+        if not isinstance(self.node, ast.FunctionDef):
+            return False
+        for n in ast.walk(self.node):
+            if isinstance(n, (ast.Yield, ast.YieldFrom)):
+                # yields of nested functions do not count
+                return self._owns(n)
+        return False
+
+    def _owns(self, target):
+        def visit(node, top):
+            for ch in ast.iter_child_nodes(node):
+                if isinstance(ch, (ast.FunctionDef, ast.Lambda)) and not top:
+                    continue
+                if ch is target:
+                    return True
+                if isinstance(ch, (ast.FunctionDef, ast.Lambda)):
+                    continue
+                if visit(ch, False):
+                    return True
+            return False
+        return visit(self.node, True)
+
     def docstring(self):
         if isinstance(self.node, ast.FunctionDef):
             return ast.get_docstring(self.node, clean=False)
